@@ -241,6 +241,15 @@ def gen_cases(rng, tier):
             elif r < 0.9985: steps.append(gen_purecall(rng))
             else: steps.append(gen_from_obj(rng))
             if i % 41 == 7: steps += [gen_purecall(rng), gen_optprobe(rng)]          # unrelated calls inside the long histories, whatever options are in force there
+            if i % 29 == 5:
+                # deterministic coverage of "equal keys, different encodings": both signed zeros (and 0 / False), and 1 / 1.0 / True, of ONE format close together,
+                # in either order, through two routes - every format and width comes round within a history (a memo keyed on the value would hand out the first one)
+                fmts = [('float', 16), ('float', 32), ('float', 64), ('floatle', 16), ('floatle', 32), ('floatle', 64), ('floatbe', 32), ('floatne', 64), ('bfloat', None), ('bfloatle', None),
+                        ('e4m3mxfp', None), ('e5m2mxfp', None), ('p4binary', None), ('p3binary', None), ('e2m1mxfp', None), ('e3m2mxfp', None), ('e2m3mxfp', None), ('mxint', None)]
+                nm, w = fmts[(i // 29 + h) % len(fmts)]
+                pair = rng.choice([['0.0', '-0.0'], ['-0.0', '0.0'], ['0', '-0.0'], ['-0.0', 'False'], ['1', '1.0'], ['True', '-1.0']])
+                for v in pair:
+                    steps.append({'op': 'floatval', 'name': nm, 'n': w or 16, 'v': v, 'route': rng.choice(['kw', 'token', 'pack', 'build', 'array', 'setattr'])})
             if i % 53 == 11: steps += [gen_from_obj(rng), gen_optprobe(rng)]
             if i % 97 == 13: steps += [gen_from_array(rng)]
         if h == 0:
